@@ -50,6 +50,30 @@ def chain_snapshots(ctx, rule, chain_field, what):
             ctx.ob(rule, 'routes-import-snapshot|%s' % field, bool(g) and 'RoutesImport' in g and in_arm and in_loop, b.loc(bb, st),
                    'the Routes import is recorded in the arm that visits it (%s), inside the component loop (%s), with a clone of the %s taken there (%s): '
                    'a middleware/observer registered after `bp.routes(..)` cannot reach the imported routes' % (sorted(g) if g else None, in_loop, what, in_arm))
+    # the same value built inside a closure: fine if the closure runs at the visit (a plain adaptor), not if its result is cached
+    MEMO = {'get_or_insert_with', 'or_insert_with', 'get_or_init', 'get_or_try_init', 'or_insert_with_key', 'get_or_insert', 'force', 'call_once'}
+    for cb in ctx.fb.bodies_of_item('pavexc', BP + '_process_blueprint'):
+        if cb is b:
+            continue
+        for bb, j, st in cb.all_assigns():
+            rv = st['rv']
+            if rv['k'] == 'agg' and rv.get('ak') == 'adt' and strip_generics(rv['adt']).endswith('::ImportKind') and rv.get('var') == 'Routes' and field in rv.get('fields', []):
+                m += 1
+                # where is this closure used?
+                users = []
+                for pb, pj, pst in b.all_assigns():
+                    prv = pst['rv']
+                    if prv['k'] == 'agg' and prv.get('ak') == 'closure' and prv.get('def') == cb.id and not pst['lhs'].get('p'):
+                        der = forward_derived(b, {pst['lhs']['l']})
+                        for ub, ut in b.calls():
+                            if any(op_place(a) is not None and op_place(a)['l'] in der for a in ut['args']):
+                                users.append((ub, (callee(ut) or '').split('::')[-1]))
+                cached = [u for u in users if u[1] in MEMO]
+                in_loop = bool(users) and all(ub in b.reachable(b.succ(ub)) for ub, _ in users)
+                g_ok = bool(users) and all('RoutesImport' in (guard_context(b, ub).get(COMP) or set()) for ub, _ in users)
+                ctx.ob(rule, 'routes-import-snapshot|%s' % field, bool(users) and not cached and in_loop and g_ok, cb.loc(bb, st),
+                       'the Routes import record is built in a closure used by %s: %s' % (sorted({u[1] for u in users}) or 'nothing',
+                           'its result is cached across visits (the chain of the FIRST `bp.routes(..)` is reused for the later ones)' if cached else 'evaluated at each visit: %s' % (in_loop and g_ok)))
     ctx.floor(rule, 'ImportKind::Routes constructions in _process_blueprint', m, 1)
 
 
